@@ -190,12 +190,27 @@ pub fn plan(seed: u64, corpus: &[Input], thorough: bool) -> Plan {
     }
     let n_targets = inputs.len();
     for _ in 0..cfg.n_polluters {
-        match rng.below(5) {
-            0 | 1 => {
+        match rng.below(6) {
+            0 => {
                 let k = rng.usize(n_targets);
                 let name = names[k].clone();
                 inputs.push(gen::same_name_variant(&mut rng, &name));
                 roles.push("polluter/same_ident");
+            },
+            1 | 5 => {
+                // the user edited a target and it is expanded again
+                let k = rng.usize(n_targets);
+                match gen::edited_copy(&mut rng, &inputs[k]) {
+                    Some(t) => {
+                        inputs.push(t);
+                        roles.push("polluter/edited_copy");
+                    },
+                    None => {
+                        let name = names[k].clone();
+                        inputs.push(gen::same_name_variant(&mut rng, &name));
+                        roles.push("polluter/same_ident");
+                    },
+                }
             },
             2 => {
                 let opts = GenOpts { error_pct: 100, into_heavy: rng.chance(1, 2) };
